@@ -325,3 +325,107 @@ Proof. vm_compute. reflexivity. Qed.
 
 Example C12_ex_negative_status_text : (z_lit (-7), z_lit 0, z_lit 1234) = ("-7", "0", "1234").
 Proof. vm_compute. reflexivity. Qed.
+
+(* ======================================================================================
+   The model meets the oracles on EVERY case kind the generator emits: every endpoint
+   shape (n backends, flatmap / static stages, every router), the first version's
+   multi-backend oracle, and the proxy-level oracle.
+   ====================================================================================== *)
+Theorem C12_endpoint_meets_oracle_all : forall rt prior epx b0 rest,
+  ep_wf b0 rest ->
+  spec_endpoint_b rt epx b0 rest (client_endpoint rt prior epx b0 rest)
+                  (raw_of (client_endpoint rt prior epx b0 rest)) = true.
+Proof. exact ep_meets_oracle. Qed.
+Print Assumptions C12_endpoint_meets_oracle_all.
+
+Theorem C12_multi_meets_oracle : forall i b0 b1 rest,
+  ep_wf b0 (b1 :: rest) ->
+  spec_multi_b (b0 :: b1 :: rest) (client_multi i (b0 :: b1 :: rest))
+               (raw_of (client_multi i (b0 :: b1 :: rest))) = true.
+Proof. exact multi_meets_oracle. Qed.
+Print Assumptions C12_multi_meets_oracle.
+
+Theorem C12_proxy_meets_oracle : forall m r d,
+  (forall dd, d = Some dd -> ok_status (r_code r) = true -> wfj (JObj dd) = true) ->
+  proxy_spec_b m r d (http_proxy_outcome m r d) = true.
+Proof. exact proxy_meets_oracle. Qed.
+Print Assumptions C12_proxy_meets_oracle.
+
+(* the first version's endpoint without stages is the endpoint model *)
+Theorem C12_client_multi_is_endpoint : forall i b0 b1 rest,
+  client_multi i (b0 :: b1 :: rest) = client_endpoint (router_of i) [] [] b0 (b1 :: rest).
+Proof. exact client_multi_endpoint. Qed.
+Print Assumptions C12_client_multi_is_endpoint.
+
+(* ep_wf (distinct keys across the backends, marked bodies) is satisfiable *)
+Example C12_ex_ep_wf :
+  ep_wf (MDefault, {| r_code := 503; r_body := "MARKER-secret-body"; r_enc := "text/plain" |}, None)
+        [(MErrorCode, {| r_code := 200; r_body := "{...}"; r_enc := "application/json" |}, Some [("ok", JStr "yes")]);
+         (MDetails "b2", {| r_code := 404; r_body := "gone"; r_enc := "" |}, None)].
+Proof. exact ep_wf_example. Qed.
+
+(* ======================================================================================
+   Backend encodings: what counts as "decoded" (json / json collection / safejson / string)
+   and the no-op encoding, for which the classification of statuses does not apply.
+   ====================================================================================== *)
+Theorem C12_string_always_decodes : forall m r parsed,
+  ok_status (r_code r) = true ->
+  http_proxy_outcome_enc EncString m r parsed =
+  (Some {| p_data := [("content", JStr (r_body r))]; p_complete := true; p_status := 0 |}, ENone).
+Proof. exact string_always_decodes. Qed.
+Print Assumptions C12_string_always_decodes.
+
+(* any other status fails whatever the encoding (except the pass-through one) and whatever the body parses to *)
+Theorem C12_enc_other_status_fails : forall e m r parsed,
+  e <> EncNoop -> ok_status (r_code r) = false ->
+  http_proxy_outcome_enc e m r parsed =
+  match m with
+  | MDefault => (None, EInvalidStatus)
+  | MErrorCode => (None, ECode (r_code r) (r_body r) (r_enc r))
+  | MDetails n =>
+      (Some {| p_data := [(("error_" ++ n)%string, error_object (r_code r) (r_body r) (r_enc r))];
+               p_complete := false; p_status := r_code r |}, ENone)
+  end.
+Proof. exact enc_other_status_fails. Qed.
+Print Assumptions C12_enc_other_status_fails.
+
+(* the hypothesis e <> EncNoop is needed: a no-op backend passes every status through as a
+   complete response (NoOpHTTPStatusHandler) *)
+Theorem C12_noop_refutes_classification :
+  exists m r parsed, ok_status (r_code r) = false /\
+    exists p, fst (http_proxy_outcome_enc EncNoop m r parsed) = Some p /\ p_complete p = true.
+Proof. exact noop_refutes_classification. Qed.
+Print Assumptions C12_noop_refutes_classification.
+
+Theorem C12_json_decodes_iff : forall body parsed,
+  decode_as (EncJson false) body parsed <> None <->
+  (exists m, parsed = Some (JObj m)) \/ parsed = Some JNull.
+Proof. exact json_decodes_iff. Qed.
+Print Assumptions C12_json_decodes_iff.
+
+Theorem C12_collection_decodes_iff : forall body parsed,
+  decode_as (EncJson true) body parsed <> None <->
+  (exists l, parsed = Some (JArr l)) \/ parsed = Some JNull.
+Proof. exact collection_decodes_iff. Qed.
+Print Assumptions C12_collection_decodes_iff.
+
+Theorem C12_safejson_decodes_iff : forall body parsed,
+  decode_as EncSafeJson body parsed <> None <-> parsed <> None.
+Proof. exact safejson_decodes_iff. Qed.
+Print Assumptions C12_safejson_decodes_iff.
+
+Theorem C12_enc_meets_oracle : forall e m r parsed,
+  e <> EncNoop ->
+  (forall dd, decode_as e (r_body r) parsed = Some dd -> ok_status (r_code r) = true -> wfj (JObj dd) = true) ->
+  proxy_spec_b m r (decode_as e (r_body r) parsed) (http_proxy_outcome_enc e m r parsed) = true.
+Proof. exact enc_meets_oracle. Qed.
+Print Assumptions C12_enc_meets_oracle.
+
+Example C12_ex_encodings :
+  (decode_as (enc_of "json" false) "[1]" (Some (JArr [JNum "1"])),
+   decode_as (enc_of "safejson" false) "[1]" (Some (JArr [JNum "1"])),
+   decode_as (enc_of "string" false) "[1]" (Some (JArr [JNum "1"])),
+   decode_as (enc_of "xml" true) "[1]" (Some (JArr [JNum "1"])))
+  = (None, Some [("collection", JArr [JNum "1"])], Some [("content", JStr "[1]")],
+     Some [("collection", JArr [JNum "1"])]).
+Proof. vm_compute. reflexivity. Qed.
